@@ -495,8 +495,16 @@ func (j *ChunkJournal) flushToBackingManifest(ctx context.Context, behavior dher
 	if err != nil {
 		return err
 	}
+	// Only the table file set is published here. The journal is the source of
+	// truth for the root hash, and |next.root| becomes durable with the root hash
+	// record written after this flush. Publishing it in the manifest first would
+	// let a crash before that record is synced leave a manifest root whose chunks
+	// were never written, which bootstrap adopts when the journal has no root
+	// hash record yet.
+	flushed := next
+	flushed.root = j.contents.root
 	var mc manifestContents
-	mc, err = j.backing.Update(ctx, behavior, prev.lock, next, stats, nil)
+	mc, err = j.backing.Update(ctx, behavior, prev.lock, flushed, stats, nil)
 	if err != nil {
 		return err
 	} else if mc.lock != next.lock {
